@@ -139,6 +139,17 @@ def run(ck: Check):
                 if total and rng.random() < 0.7:
                     c["bad_rids"] = rng.sample(range(total), min(total, rng.choice([1, 2, 3])))
     scs += takeover_late_partition(rng, n)
+    # the application commits by hand (commit() / commit({tp: offset}) / OffsetAndMetadata) after every batch, with and
+    # without the auto-commit timer running beside it
+    rng_mc = random.Random(ck.seed * 7121 + 414)
+    for i in range(ck.n(18, 200)):
+        sc = conssim.gen_scenario(rng_mc, 800000 + i)
+        sc["faults"]["apis"] = ["OffsetCommit", "OffsetCommit", "Heartbeat", "JoinGroup", "SyncGroup", "FindCoordinator"]
+        for c in sc["consumers"]:
+            c["manual_commit"] = rng_mc.choice(["all", "explicit", "explicit_meta"])
+            c["auto_commit"] = rng_mc.random() < 0.3
+        sc["family"] = "manual-commit"
+        scs.append(sc)
     # the same kind of scenarios against older broker releases (other request / response versions of every group API)
     rng_old = random.Random(ck.seed * 7121 + 404)
     for i in range(ck.n(18, 200)):
